@@ -147,3 +147,9 @@ package diagnostic
 //@           (= (. (idx ranges (len before)) To) (. (posOf fset (mcall End (local node))) Line))
 //@           (forall ((j Int)) (=> (and (<= 0 j) (< j (len before))) (= (idx ranges j) (atloop (idx before j))))))
 //@      (= ranges before)))
+
+//@ -- C13: every conflict that survives filtering (and grouping) yields exactly one diagnostic, in order
+//@ func (*Engine).Diagnostics
+//@ prop C13
+//@ ensures one-diagnostic-per-kept-conflict (= (len result) (len (local conflicts)))
+//@ loop 1 invariant one-diagnostic-per-conflict-so-far (and (= (len diagnostics) (+ rangeindex 1)) (<= -1 rangeindex) (< rangeindex (len conflicts)))
